@@ -109,6 +109,26 @@ known_restart_finding(const std::string& where)
     std::fprintf(g_orc, "# also: %s\n", where.c_str());
 }
 
+// Second class of input on which a clause fails on the unchanged tree: TOF data, projector with view symmetries requested
+// (the default), more than one subset, subset sensitivities: the sensitivity is back projected with a NON-TOF clone of the
+// projector, which keeps the view symmetries that the TOF projector drops, so "subset i" of the sensitivity is the set of
+// views RELATED to the basic views = i (mod n), not the views = i (mod n) of the data.
+static void
+known_tof_sens_finding(const std::string& where)
+{
+  static int seen = 0;
+  if (seen++ == 0)
+    std::fprintf(g_orc,
+                 "KNOWN-CANDIDATE em-formula:tof-subset-sensitivity-by-symmetries-of-non-tof-projector TOF data, more than one "
+                 "subset, projector with view symmetries requested: the update divides A_S^T[y/(A_S lambda+a)] of the data subset S "
+                 "(views = i mod n; the TOF projector has no view symmetries) by the sensitivity of ANOTHER set of views (those "
+                 "related by the symmetries of the non-TOF sensitivity projector to its basic views = i mod n), e.g. 0 for a subset "
+                 "without basic views (images become inf) [%s]\n",
+                 where.c_str());
+  else if (seen <= 6)
+    std::fprintf(g_orc, "# also: %s\n", where.c_str());
+}
+
 static Vec
 to_vec(const TargetT& im)
 {
@@ -150,6 +170,7 @@ struct Geo
   std::vector<Bin> sbins;
   std::vector<std::vector<std::pair<int, float>>> srows;
   std::vector<int> sbasic_view;
+  std::vector<int> sbasic_view_sym; // TOF: basic view by the symmetries of the NON-TOF projector (what STIR's sensitivity uses)
 };
 
 static shared_ptr<ProjMatrixByBinUsingRayTracing>
@@ -240,6 +261,7 @@ make_geo(int N, int R, int nxy, int symflags, int span = 1, int mash = 1, int to
       explicit_rows(g, nontof, g.sbins, g.srows, g.sbasic_view, true);
       // the subset S of the property's formula is the subset of the DATA (TOF projector: view symmetries are switched off,
       // so the basic view of a bin is its view); s_S must be the sensitivity of the same S
+      g.sbasic_view_sym = g.sbasic_view;
       for (std::size_t b = 0; b < g.sbins.size(); ++b)
         g.sbasic_view[b] = g.sbins[b].view_num();
     }
@@ -248,6 +270,7 @@ make_geo(int N, int R, int nxy, int symflags, int span = 1, int mash = 1, int to
       g.sbins = g.bins;
       g.srows = g.rows;
       g.sbasic_view = g.basic_view;
+      g.sbasic_view_sym = g.basic_view;
     }
   return g;
 }
@@ -512,6 +535,15 @@ put_cfg(const char* stream, int nvox, const RunCfg& c)
   std::fprintf(g_out, "ok\n");
 }
 
+static bool
+all_finite(const Vec& v)
+{
+  for (float x : v)
+    if (!std::isfinite(x))
+      return false;
+  return true;
+}
+
 // one `upd` (+ optional `eoi`) operation from what was observed for sub-iteration k
 static void
 put_upd(int k, int subset, const Vec& before, const Vec& gps, const Vec& sens, const Vec* pg, const Vec* fu_out,
@@ -536,7 +568,7 @@ put_upd(int k, int subset, const Vec& before, const Vec& gps, const Vec& sens, c
   std::fprintf(g_ops, "\n");
   put_vec(g_out, after_update);
   std::fprintf(g_out, "\n");
-  if (fi_out)
+  if (fi_out && all_finite(after_update)) // (the model stops at a non-finite image)
     {
       std::fprintf(g_ops, "eoi %d L ", k);
       put_vec(g_ops, after_update);
@@ -546,15 +578,6 @@ put_upd(int k, int subset, const Vec& before, const Vec& gps, const Vec& sens, c
       put_vec(g_out, final_image);
       std::fprintf(g_out, "\n");
     }
-}
-
-static bool
-all_finite(const Vec& v)
-{
-  for (float x : v)
-    if (!std::isfinite(x))
-      return false;
-  return true;
 }
 
 static bool
@@ -690,6 +713,7 @@ same_files(const std::string& a, const std::string& b, bool& both_exist)
 struct Explicit
 { // textbook quantities from the explicit matrix, in double
   std::vector<double> gps, sens, ybar;
+  std::vector<double> sens_tof; // TOF data: the sensitivity of the same subset from the TOF matrix (`use time-of-flight sensitivities`)
   bool regular = true;
   double total_counts = 0, ll = 0, ll_mag = 0;
 };
@@ -700,13 +724,16 @@ in_subset(const Geo& g, const RunCfg& c, std::size_t b, int subset, int max_seg)
   return std::abs(g.bins[b].segment_num()) <= max_seg && g.basic_view[b] % c.nsub == subset;
 }
 
+// `sens_by_sym`: (TOF only) the subset of the sensitivity by the view symmetries of the non-TOF projector instead of the
+// subset of the data (see KNOWN-CANDIDATE em-formula:tof-subset-sensitivity-by-symmetries-of-non-tof-projector)
 static Explicit
-explicit_quantities(const Geo& g, const Data& d, const RunCfg& c, const Vec& lambda, int subset)
+explicit_quantities(const Geo& g, const Data& d, const RunCfg& c, const Vec& lambda, int subset, bool sens_by_sym = false)
 {
   Explicit e;
   const int max_seg = c.max_seg >= 0 ? c.max_seg : g.pdi->get_max_segment_num();
   e.gps.assign(g.nvox, 0.);
   e.sens.assign(g.nvox, 0.);
+  e.sens_tof.assign(g.nvox, 0.);
   e.ybar.assign(g.bins.size(), 0.);
   // STIR's divide_and_truncate works per viewgram: threshold = max of the measured viewgram * 1e-6
   auto vkey = [&](const Bin& bin) { return (bin.segment_num() * 4096 + bin.view_num()) * 64 + bin.timing_pos_num(); };
@@ -721,7 +748,7 @@ explicit_quantities(const Geo& g, const Data& d, const RunCfg& c, const Vec& lam
     {
       if (std::abs(g.sbins[b].segment_num()) > max_seg)
         continue;
-      const bool mine = g.sbasic_view[b] % c.nsub == subset;
+      const bool mine = (sens_by_sym ? g.sbasic_view_sym[b] : g.sbasic_view[b]) % c.nsub == subset;
       const double eff = g.tof ? 1. : d.eff[b];
       for (auto& el : g.srows[b])
         if (c.use_subset_sens ? mine : true)
@@ -737,6 +764,9 @@ explicit_quantities(const Geo& g, const Data& d, const RunCfg& c, const Vec& lam
         fwd += static_cast<double>(el.second) * lambda[el.first];
       const double ybar = fwd + d.add[b];
       e.ybar[b] = ybar;
+      if (g.tof && (c.use_subset_sens ? mine : true))
+        for (auto& el : g.rows[b])
+          e.sens_tof[el.first] += static_cast<double>(el.second) * d.eff[b] / (c.use_subset_sens ? 1. : c.nsub);
       if (!mine)
         continue;
       e.total_counts += d.y[b];
@@ -845,6 +875,12 @@ run_real_case(const std::string& name, const Geo& g, const Data& d, RunCfg c, vh
     bool ok = true;
     for (int j = 0; j < g.nvox && ok; ++j)
       ok = std::fabs(total[j] - ex.sens[j]) <= gam * std::fabs(ex.sens[j]) + 1e-30;
+    if (!ok && g.tof)
+      { // TOF data: the sensitivity of the TOF matrix is the sensitivity just as well (`use time-of-flight sensitivities`)
+        ok = true;
+        for (int j = 0; j < g.nvox && ok; ++j)
+          ok = std::fabs(total[j] - ex.sens_tof[j]) <= gam * std::fabs(ex.sens_tof[j]) + 1e-30;
+      }
     ++g_checks;
     if (!ok)
       oracle_fail("total sensitivity differs from the explicit matrix, case=" + name);
@@ -938,35 +974,83 @@ run_real_case(const std::string& name, const Geo& g, const Data& d, RunCfg c, vh
       // (formula) lambda' = lambda * A_S^T[y/(A_S lambda + a)] / s_S, 0 where s_S = 0
       if (!c.prior_active() && !filters && !c.clamps && ex.regular && nonneg_in)
         {
-          bool ok = true;
+          // the formula with the explicit sensitivity `s`; `bad` = first voxel off
+          auto formula_ok = [&](const std::vector<double>& s_expl, int& bad_voxel) {
+            for (int j = 0; j < g.nvox; ++j)
+              {
+                const double expect = s_expl[j] == 0 ? 0. : before[j] * ex.gps[j] / s_expl[j];
+                // a subset sensitivity that is a rounding-level residue is not a "zero" the formula can be tested at
+                if (!(std::fabs(after[j] - expect) <= gam * std::fabs(expect) + 1e-30))
+                  {
+                    bad_voxel = j;
+                    return false;
+                  }
+              }
+            return true;
+          };
           int bad = -1;
-          for (int j = 0; j < g.nvox && ok; ++j)
+          bool ok = formula_ok(ex.sens, bad);
+          // TOF data: s_S of the TOF matrix itself (what `use time-of-flight sensitivities` gives) is s_S just as well as
+          // STIR's default, the s_S of the non-TOF matrix
+          const std::vector<double>* s_used = &ex.sens;
+          if (!ok && g.tof)
             {
-              double expect;
-              if (ex.sens[j] == 0)
-                expect = 0;
-              else
-                expect = before[j] * ex.gps[j] / ex.sens[j];
-              // a subset sensitivity that is a rounding-level residue is not a "zero" the formula can be tested at
-              const double tol = gam * std::fabs(expect) + 1e-30;
-              if (!(std::fabs(after[j] - expect) <= tol))
+              int bad2 = -1;
+              if (formula_ok(ex.sens_tof, bad2))
                 {
-                  ok = false;
-                  bad = j;
+                  ok = true;
+                  s_used = &ex.sens_tof;
+                  g_cov["oracle_formula_steps_with_tof_sensitivity"]++;
                 }
             }
           ++g_checks;
           g_cov["oracle_formula_steps"]++;
-          if (!ok)
+          bool known_class = false;
+          if (g.tof && c.nsub > 1 && c.use_subset_sens)
+            { // does STIR's sensitivity subset (view symmetries of the non-TOF projector) differ from the data subset here?
+              Explicit alt = explicit_quantities(g, d, c, before, subset, true);
+              bool differs = false, impl_is_alt = true;
+              for (int j = 0; j < g.nvox; ++j)
+                {
+                  differs = differs || std::fabs(alt.sens[j] - ex.sens[j]) > gam * std::fabs(ex.sens[j]) + 1e-30;
+                  impl_is_alt = impl_is_alt && std::fabs(sens[j] - alt.sens[j]) <= gam * std::fabs(alt.sens[j]) + 1e-30
+                                && std::fabs(gps[j] - ex.gps[j]) <= gam * std::fabs(ex.gps[j]) + 1e-30;
+                  if (alt.sens[j] != 0 && std::isfinite(after[j]))
+                    impl_is_alt = impl_is_alt
+                                  && std::fabs(after[j] - before[j] * ex.gps[j] / alt.sens[j])
+                                         <= gam * std::fabs(before[j] * ex.gps[j] / alt.sens[j]) + 1e-30;
+                }
+              if (differs)
+                {
+                  g_cov["tof_steps_where_sensitivity_subset_differs_from_data_subset"]++;
+                  // pinned from both sides: the implementation must then be exactly "data subset / other sensitivity"
+                  known_class = impl_is_alt;
+                }
+            }
+          const std::string where = " [" + std::to_string(g.N) + " detectors x " + std::to_string(g.R) + " rings, " + std::to_string(g.views)
+                                    + " views, symmetry flags " + std::to_string(g.symflags) + ", " + std::to_string(c.nsub) + " subsets, subset "
+                                    + std::to_string(subset) + (c.use_subset_sens ? ", subset sensitivities" : ", total sensitivity / nsub") + "]";
+          if (!ok && known_class)
+            known_tof_sens_finding("case=" + name + " k=" + std::to_string(k) + " voxel " + std::to_string(bad) + ": lambda'="
+                                   + vh::hex(after[bad]) + ", formula " + vh::hex(ex.sens[bad] == 0 ? 0. : before[bad] * ex.gps[bad] / ex.sens[bad])
+                                   + ", s used " + vh::hex(sens[bad]) + ", s_S " + vh::hex(ex.sens[bad]) + where);
+          else if (!ok)
             oracle_fail("em-formula case=" + name + " k=" + std::to_string(k) + " voxel=" + std::to_string(bad) + " impl="
-                        + vh::hex(after[bad]) + " expected=" + vh::hex(ex.sens[bad] == 0 ? 0. : before[bad] * ex.gps[bad] / ex.sens[bad]));
+                        + vh::hex(after[bad]) + " expected=" + vh::hex(ex.sens[bad] == 0 ? 0. : before[bad] * ex.gps[bad] / ex.sens[bad])
+                        + " lambda=" + vh::hex(before[bad]) + " g=" + vh::hex(gps[bad]) + " (explicit " + vh::hex(ex.gps[bad]) + ") s="
+                        + vh::hex(sens[bad]) + " (explicit " + vh::hex(ex.sens[bad]) + ")" + where);
           // sensitivities and gradient-plus-sensitivity themselves (the DATA of the model) against the explicit matrix
-          bool ok2 = true;
-          for (int j = 0; j < g.nvox && ok2; ++j)
-            ok2 = std::fabs(sens[j] - ex.sens[j]) <= gam * std::fabs(ex.sens[j]) + 1e-30
-                  && std::fabs(gps[j] - ex.gps[j]) <= gam * std::fabs(ex.gps[j]) + 1e-30;
+          auto data_ok = [&](const std::vector<double>& s_expl) {
+            for (int j = 0; j < g.nvox; ++j)
+              if (!(std::fabs(sens[j] - s_expl[j]) <= gam * std::fabs(s_expl[j]) + 1e-30
+                    && std::fabs(gps[j] - ex.gps[j]) <= gam * std::fabs(ex.gps[j]) + 1e-30))
+                return false;
+            return true;
+          };
+          // (with zero counts in the subset the formula holds for any sensitivity: either s_S is accepted here as well)
+          const bool ok2 = data_ok(*s_used) || (g.tof && (data_ok(ex.sens) || data_ok(ex.sens_tof)));
           ++g_checks;
-          if (!ok2)
+          if (!ok2 && !known_class)
             oracle_fail("subset sensitivity / gradient-plus-sensitivity differ from the explicit matrix, case=" + name
                         + " k=" + std::to_string(k));
         }
